@@ -14,7 +14,7 @@ use serde_json::{json, Map, Value};
 use crate::{api::{limbs, u64_of}, clock, field::{init_record, painted_strs, panic_msg}, spy::Spy, tok};
 
 #[derive(Default, Clone)]
-struct Trk { ticks: u64, resets: u64, writes: u64, tpos: u64, thas: bool, tlen: u64, wpos: u64, whas: bool, wlen: u64, wfin: bool, frac: f32, probes: u64 }
+struct Trk { ticks: u64, resets: u64, writes: u64, tpos: u64, thas: bool, tlen: u64, wpos: u64, whas: bool, wlen: u64, wfin: bool, frac: f32, probes: u64, rpos: u64, rfin: bool }
 type Shared = Arc<Mutex<Trk>>;
 
 /// stateful custom key `ctr`: counts its tick / reset / write calls and remembers the state it was given
@@ -22,11 +22,13 @@ struct Counter(Shared);
 impl ProgressTracker for Counter {
     fn clone_box(&self) -> Box<dyn ProgressTracker> { Box::new(Counter(self.0.clone())) }
     fn tick(&mut self, s: &ProgressState, _: Instant) { let mut g = self.0.lock().unwrap(); g.ticks += 1; g.tpos = s.pos(); g.thas = s.len().is_some(); g.tlen = s.len().unwrap_or(0); }
-    fn reset(&mut self, _: &ProgressState, _: Instant) { self.0.lock().unwrap().resets += 1; }
+    // the state a tracker is reset with is the bar's state after the reset (position 0, in progress)
+    fn reset(&mut self, s: &ProgressState, _: Instant) { let mut g = self.0.lock().unwrap(); g.resets += 1; g.rpos = s.pos(); g.rfin = s.is_finished(); }
     fn write(&self, s: &ProgressState, w: &mut dyn std::fmt::Write) {
         let mut g = self.0.lock().unwrap();
         g.writes += 1;
         let _ = write!(w, "t{}r{}p{}", g.ticks, g.resets, s.pos());
+        if g.resets > 0 { let _ = write!(w, "z{}{}", g.rpos, if g.rfin { "f" } else { "n" }); }
     }
 }
 /// custom key `probe`: writes nothing, records the state it is given at write time
@@ -69,7 +71,7 @@ fn facts(pb: &ProgressBar, g: &Trk) -> Value {
         "ps": c(format!("{}/s", HumanFloatCount(ps))), "bps": c(format!("{}/s", HumanBytes(ps as u64))),
         "dbps": c(format!("{}/s", DecimalBytes(ps as u64))), "bbps": c(format!("{}/s", BinaryBytes(ps as u64))),
         "msg": c(pb.message()), "prefix": c(pb.prefix()),
-        "ctr": c(format!("t{}r{}p{}", g.ticks, g.resets, pos)),
+        "ctr": c(format!("t{}r{}p{}{}", g.ticks, g.resets, pos, if g.resets > 0 { "z0n" } else { "" })),
     })
 }
 fn no_facts() -> Value {
